@@ -1,10 +1,10 @@
 (* C05 - Searches maximise the objective(s).  Property theorems only. *)
 From Coq Require Import String.
-From Coq Require Import List ZArith QArith Qabs Bool Arith.
+From Coq Require Import List ZArith QArith Qabs Bool Arith Permutation.
 Import ListNotations.
 Require Import DH.C05_Direction.Model DH.C05_Direction.LemmasBasic DH.C05_Direction.LemmasVec DH.C05_Direction.LemmasSign
   DH.C05_Direction.LemmasScalar DH.C05_Direction.LemmasInvar DH.C05_Direction.LemmasHist DH.C05_Direction.LemmasAffine
-  DH.C05_Direction.LemmasScaler DH.C05_Direction.LemmasFinal DH.C05_Direction.LemmasProperty DH.C05_Direction.Check DH.C05_Direction.Names.
+  DH.C05_Direction.LemmasScaler DH.C05_Direction.LemmasFinal DH.C05_Direction.LemmasProperty DH.C05_Direction.LemmasTopk DH.C05_Direction.Check DH.C05_Direction.Names.
 Require Import DH.Generated.Facts_C05.
 Open Scope Q_scope.
 
@@ -151,6 +151,31 @@ Theorem C05_scalar_homogeneous :
 Proof. exact scal_scale. Qed.
 Print Assumptions C05_scalar_homogeneous.
 
+(* One-shot batch ask(n, "topk"): the n selected (index, value) pairs are a sub-multiset of the candidates, there are
+   min(n, #candidates) of them, and no candidate left out has a smaller acquisition value than a selected one. *)
+Theorem C05_topk_selects_smallest :
+  forall n l, exists rest,
+    Permutation l (topk_pairs n l ++ rest)
+    /\ length (topk_pairs n l) = Nat.min n (length l)
+    /\ forall p q, In p (topk_pairs n l) -> In q rest -> snd p <= snd q.
+Proof. exact topk_pairs_spec. Qed.
+Print Assumptions C05_topk_selects_smallest.
+
+(* ... hence, exploitation only (kappa = 0), every candidate observed, interpolating mean, strictly increasing scaler:
+   the batch consists of candidates with the LARGEST objectives - no candidate outside the batch beats one inside. *)
+Theorem C05_topk_largest_objectives :
+  forall (C : Type) (obj mu sigma : C -> Q) (sc : Q -> Q) (kappa : Q),
+    (forall x y, x < y -> sc x < sc y) -> kappa == 0 ->
+    forall (cs : list C) (d : C) (n : nat),
+    (forall c, In c cs -> mu c == sc (- obj c)) ->
+    let vals := map2 (acq_lcb kappa) (map mu cs) (map sigma cs) in
+    exists rest, Permutation (indexed vals) (topk_pairs n (indexed vals) ++ rest)
+                 /\ length (topk n vals) = Nat.min n (length cs)
+                 /\ forall p q, In p (topk_pairs n (indexed vals)) -> In q rest ->
+                                obj (nth (fst q) cs d) <= obj (nth (fst p) cs d).
+Proof. exact topk_largest. Qed.
+Print Assumptions C05_topk_largest_objectives.
+
 (* TODAY's code (before fix F07) applies the scalarisers to the unshifted negated objectives: Chebyshev prefers the point
    that is worse in every objective.  Witness y = (-3,-3) (objectives 3,3), y' = (-1,-1): 3/2 vs 1/2. *)
 Theorem C05_cheb_refuted : exists w y y', allpos w /\ vlt y y' /\ cheb w y' < cheb w y.
@@ -185,7 +210,17 @@ Theorem C05_oracles :
 Proof. exact oracles_all. Qed.
 Print Assumptions C05_oracles.
 
+Theorem C05_oracles_batch :
+  (forall l, ok_acq_weak l = true <-> AcqWeak l) /\ (forall objs n sel, ok_topk objs n sel = true <-> TopK objs n sel).
+Proof. exact (conj ok_acq_weak_spec ok_topk_spec). Qed.
+Print Assumptions C05_oracles_batch.
+
 (* ---- non-vacuity ---- *)
+Example C05_example_topk :
+  topk 2 [- (3#1); - (7#1); - (5#1); - (1#1)] = [1%nat; 2%nat] /\ ok_topk [3#1; 7#1; 5#1; 1#1] 2 [2%nat; 1%nat] = true
+  /\ ok_topk [3#1; 7#1; 5#1; 1#1] 2 [0%nat; 1%nat] = false.
+Proof. vm_compute. repeat split; reflexivity. Qed.
+
 Example C05_example_exploit :
   next_idx 0 [- (3#1); - (7#1); - (5#1)] [1; 2; 3] = 1%nat /\ ok_pick_max [3#1; 7#1; 5#1] 1 = true.
 Proof. vm_compute. split; reflexivity. Qed.
